@@ -53,6 +53,8 @@ def ref_parse_member(m, bits, pos):
     if k == "bwb":
         v, p = ref_parse_member(["int", 8, False, False], bits, pos)
         return bytes([v]), p
+    if k == "bwz":
+        return b"", pos
     if k == "bwpre":
         # byte-oriented island of no static size read in ONE multi-byte request: a length byte, then that many bytes
         n, pos = ref_parse_member(["int", 8, False, False], bits, pos)
@@ -114,6 +116,8 @@ def ref_build_member(m, v):
         return ref_build_member(["int", 16, False, True], v)
     if k == "bwb":
         return int_bits(v[0], 8)
+    if k == "bwz":
+        return []
     if k == "bwpre":
         out = int_bits(len(v), 8)
         for b in v:
@@ -183,6 +187,8 @@ def width(m):
         return 16
     if k == "bwb":
         return 8
+    if k == "bwz":
+        return 0
     if k == "struct":
         return sum(width(x) for x in m[1])
     if k == "array":
@@ -207,6 +213,8 @@ def mk_member(m, prefix="f"):
         return C.Bytewise(C.Int16ul)
     if k == "bwb":
         return C.Bytewise(C.Bytes(1))
+    if k == "bwz":
+        return C.Bytewise(C.Bytes(0))        # a byte-oriented island of static size zero
     if k == "bwvar":
         return C.Bytewise(C.VarInt)
     if k == "bwpre":
@@ -425,6 +433,9 @@ SPECIAL = [
     [["int", 3, False, False], ["int", 24, False, True], ["int", 5, False, False]],
     [["int", 1, False, False, "alias"], ["int", 7, False, False]],
     [["int", 32, True, True], ["int", 8, False, True]],
+    [["int", 4, False, False], ["bwz"], ["int", 4, True, False]],
+    [["bwz"], ["int", 8, False, False], ["bwz"]],
+    [["flag"], ["bwz"], ["int", 7, False, False], ["bwb"]],
 ]
 VAR_SPECIAL = [
     [["int", 4, False, False], ["bwvar"], ["int", 4, True, False]],
